@@ -466,11 +466,11 @@ class Gen:
         elif k == "names_long":
             # a roster whose names do not fit one line: many members with nicknames near NICKLEN
             ch = "#longnames"
-            n = r.choice([6, 13, 14, 15])
-            ln = r.choice([90, 150, 160, 190])
+            n = r.choice([6, 13, 14, 15, 20, 21, 22, 41])
+            ln = r.choice([90, 150, 160, 190]) if n < 20 else r.choice([3, 8, 90])
             made = []
             for i in range(n):
-                c = self.new_conn(limit=40)
+                c = self.new_conn(limit=70)
                 if c is None:
                     break
                 if self.server_pw:
@@ -897,7 +897,12 @@ class Gen:
             self.line(c, r.choice(["MOTD", "VERSION", "ADMIN", "TIME", "INFO", "HELP", "HELP COMMANDS", "HELP nope",
                                    "LINKS", "REHASH", "RESTART", "CONNECT a.b 6667", "MOTD irc.test", "VERSION *.x",
                                    "ADMIN bad", "TIME irc.test", "LINKS a.b *.c", "LINKS *", "CONNECT a.b x",
-                                   "CONNECT ab", "AUTHENTICATE", "CAP LS 302", "CAP END", "PASS x", "USER a b c d"]))
+                                   "CONNECT ab", "AUTHENTICATE", "CAP LS 302", "CAP END", "PASS x", "USER a b c d",
+                                   "STATS u other.srv", "STATS u irc.test", "STATS m irc.test", "STATS m", "STATS u bad_srv",
+                                   "WHOWAS alice 1 other.srv", "WHOWAS alice 1 irc.test", "WHOWAS alice x irc.test",
+                                   "WHOWAS alice 2 bad_srv", "CAP", "CAP FOO BAR", "CAP LS x", "CAP REQ", "LINKS irc.test x",
+                                   "TIME other.srv", "INFO other.srv", "MOTD other.srv", "VERSION irc.test",
+                                   "LUSERS * other.srv", "ADMIN irc.test", "CONNECT a.b 6667 c.d", "CONNECT bad_srv 1"]))
         elif v == "GARBAGE":
             self.line(c, self.garbage())
         elif v == "TOOLONG":
